@@ -1,5 +1,2 @@
-import QuicProofs.Bridge.DcReplay
 import QuicProofs.Bridge.VarInt
-import QuicProofs.Lemmas.DcReplay
 import QuicProofs.Props.C05VarInt
-import QuicProofs.Props.C19Replay
